@@ -9,7 +9,17 @@ def check(run):
     n, s = generic.gen_replay(run, "EncryptCookie", "MC_EncryptCookie.cfg", "TestC20", "encryptcookie", workers=4)
     if s["cases"] != n:
         raise core.Inconclusive("driver did not consume every case")
-    run.evaluations = s["concrete_exchanges"]
+    # the response side of the same step, performed by 8 clients at once on one middleware instance
+    import os
+    outp = os.path.join(run.work, "conc_out.txt")
+    run.drive(run._binary, "TestC20Conc", env={"VERIF_OUT": outp}, timeout=900, tag="conc")
+    viol, _x, sc = generic.summary_of(outp)
+    if sc is None:
+        raise core.Inconclusive("driver TestC20Conc did not finish")
+    for v in viol:
+        run.violation(v)
+    run.extra["concurrent_summary"] = sc
+    run.evaluations = s["concrete_exchanges"] + sc["requests"]
     run.traces = n
     run.nontrivial = s["with_tampered_or_foreign_value"]
     run.exhaustive = True
@@ -17,7 +27,8 @@ def check(run):
                 "client presents: absent, the issued ciphertext, the other cookie's ciphertext, bit flip, truncation, extension, ciphertext under another key, "
                 "plaintext, garbage, empty) with the value each handler must see and checks OnlyAuthentic / NeverPlainOnWire; the harness expands flips to every "
                 "byte and truncations to every length of the real AES-GCM ciphertext (strided for long values), verifies the wire value with the standard "
-                "library and compares what the next handler sees. Non-trivial = concrete exchanges presenting a tampered or foreign value.")
+                "library and compares what the next handler sees; the handler of the first request returns normally or with an error after setting the cookies; "
+                "the first step is also performed by 8 clients at once on one middleware instance (each must get the ciphertexts of its own values). Non-trivial = concrete exchanges presenting a tampered or foreign value.")
     run.extra["driver_summary"] = s
     run.extra["violations_by_check"] = dict(collections.Counter(v["check"] for v in run.violations))
     run.assumptions = ["the cipher is treated symbolically; only the middleware's handling of issued / non-issued values is modelled",
